@@ -30,6 +30,9 @@ def passes(seed):
     out.append(('bytes-nul', b'\x00\x00a\x00'))
     out.append(('ascii-1000', 'x' * 1000))
     out.append(('ascii-5000', ''.join(chr(0x30 + rnd.randrange(40)) for _ in range(5000))))
+    # around and beyond 2^16 octets (with and without the 8-octet salt in front)
+    for n in (65527, 65528, 65529, 65536, 65537, 70000):
+        out.append(('ascii-%d' % n, ''.join(chr(0x30 + (i * 13 + n) % 70) for i in range(n))))
     return out
 
 
